@@ -271,6 +271,12 @@ func c17Scenarios() []pxScenario {
 			}
 		}
 	}
+	// a dialled-on-demand peer whose connection fails: removed, reported, dialled again
+	for _, how := range []string{"read", "write", "write-blocked", "dialerror"} {
+		for v := 0; v < 2; v++ {
+			bases = append(bases, pxDialThenFail(how, v))
+		}
+	}
 	var out []pxScenario
 	out = append(out, bases...)
 	for bi, sc := range bases {
